@@ -107,6 +107,8 @@ py_upper = z3.Function("py_upper", StrS, StrS)
 split_len = z3.Function("split_len", StrS, StrS, IntS)
 split_at = z3.Function("split_at", StrS, StrS, IntS, StrS)
 sorted_arr = z3.Function("sorted_arr", z3.ArraySort(IntS, StrS), IntS, z3.ArraySort(IntS, StrS))
+NOWHERE = z3.Const("nowhere", Ref)        # not an object: target of a conditional frame whose condition is false
+lowner = z3.Function("lowner", Ref, IntS)     # which owned list field a list object belongs to (ownership discipline)
 lkind = z3.Function("lkind", Ref, IntS)       # 0 object, 1 list[str], 2 list[ref], 3 list[int]
 re_sub_fn = z3.Function("re_sub", StrS, StrS, StrS)       # re.sub(pattern, "", s)  (A3)
 dedent_fn = z3.Function("textwrap_dedent", StrS, StrS)
@@ -158,16 +160,18 @@ class FunctionVerifier:
             self.ctr = itertools.count()
             self.path_notes = []
             self._nonneg, self._nonneg_keep = set(), []
+            self._soft_ids, self.soft_mode = set(), False
             self._fresh_ids, self._entry_ids, self._id_keep = set(), set(), []
+            self._owner_tag, self._entry_term_cache, self._binder_cache, self._lkind_tag = {}, {}, {}, {}
             self.paths += 1
             if self.paths > self.max_paths:
                 raise VCError(f"{self.label}: more than {self.max_paths} paths")
             try:
                 self.run_path()
-                self.covers.append((f"{self.label}#cover@p{self.paths}", list(self.pc)))
+                self.add_cover()
             except PathEnd as pe:
                 if getattr(pe, "cover", False):
-                    self.covers.append((f"{self.label}#cover@p{self.paths}", list(self.pc)))
+                    self.add_cover()
             # next prefix: flip the last decision that still has an alternative
             i = len(self.trace) - 1
             while i >= 0 and not self.trace[i][1]:
@@ -178,14 +182,51 @@ class FunctionVerifier:
         return self.obligations
 
     def feasible(self, cond):
+        """Branch pruning only (never a verdict).  Quantified facts and lambda definitions are left out: that
+        weakens the path condition, so a branch may be explored although it is infeasible - harmless."""
         s = z3.Solver()
         s.set("timeout", self.feas_timeout)
+        for c in self.pc:
+            if not self._has_binder(c):
+                s.add(c)
+        s.add(cond)
+        return s.check() != z3.unsat
+
+    def _has_binder(self, e):
+        i = e.get_id()
+        r = self._binder_cache.get(i)
+        if r is None:
+            r = False
+            todo, seen = [e], set()
+            while todo:
+                x = todo.pop()
+                if x.get_id() in seen:
+                    continue
+                seen.add(x.get_id())
+                if z3.is_quantifier(x):
+                    r = True
+                    break
+                todo.extend(x.children())
+            self._binder_cache[i] = r
+            self._id_keep.append(e)
+        return r
+
+    def add_cover(self):
+        hard = [c for c in self.pc if c.get_id() not in self._soft_ids]
+        self.covers.append((f"{self.label}#cover@p{self.paths}", list(self.pc), hard))
+
+    def feasible_full(self, cond, timeout=5000):
+        s = z3.Solver()
+        s.set("timeout", timeout)
         for c in self.pc:
             s.add(c)
         s.add(cond)
         return s.check() != z3.unsat
 
-    def choose(self, cond):
+    def choose(self, cond, exc_branch=None):
+        """exc_branch: the truth value of `cond` that leads to an exception (None: ordinary branch).  Exception
+        branches are additionally checked against the full path condition (with quantified facts), so that
+        branches excluded by a quantified precondition are pruned instead of ending as vacuous paths."""
         cond = z3.simplify(cond)
         if z3.is_true(cond):
             return True
@@ -197,6 +238,10 @@ class FunctionVerifier:
         else:
             t_ok = self.feasible(cond)
             f_ok = self.feasible(z3.Not(cond))
+            if exc_branch is True and t_ok:
+                t_ok = self.feasible_full(cond)
+            if exc_branch is False and f_ok:
+                f_ok = self.feasible_full(z3.Not(cond))
             if t_ok and f_ok:
                 val, alt = True, True
             elif t_ok:
@@ -224,6 +269,11 @@ class FunctionVerifier:
         for c in self.pc:
             if c.get_id() == i:
                 return
+        if self.soft_mode:
+            # assumptions that come from contracts (callee postconditions, loop invariants, lemma conclusions):
+            # if only these make a path condition unsatisfiable, the path is *vacuous* (see check_covers)
+            self._soft_ids.add(i)
+            self._id_keep.append(cond)
         self.pc.append(cond)
 
     def oblige(self, goal, kind, label, where=""):
@@ -238,6 +288,8 @@ class FunctionVerifier:
             ob.trivial = trivial
             self.obligations.append(ob)
         if not trivial:
+            self._soft_ids.add(goal.get_id())
+            self._id_keep.append(goal)
             self.pc.append(goal)
 
     def _count_trivial(self, kind, label):
@@ -301,7 +353,9 @@ class FunctionVerifier:
         self.trace, self.prefix, self.pc = [], [], []
         self.ctr = itertools.count()
         self._nonneg, self._nonneg_keep = set(), []
+        self._soft_ids, self.soft_mode = set(), False
         self._fresh_ids, self._entry_ids, self._id_keep = set(), set(), []
+        self._owner_tag, self._entry_term_cache, self._binder_cache, self._lkind_tag = {}, {}, {}, {}
         self.paths += 1
         heap = Heap()
         self.heap = heap
@@ -392,7 +446,7 @@ class FunctionVerifier:
                 continue
             r = z3.Const(f"frame_r!{key}", Ref)
             allowed = mod.get(key, [])
-            hyp = [birth(r) < self.pre_heap.now] + [r != m for m in allowed]
+            hyp = [birth(r) < self.pre_heap.now, r != NOWHERE] + [r != m for m in allowed]
             goal = z3.Implies(conj(hyp), z3.Select(arr, r) == z3.Select(arr0, r))
             self.oblige(goal, "frame", key, self.prog.loc(self.func.module, self.func.node))
 
@@ -433,6 +487,22 @@ class FunctionVerifier:
             elif isinstance(e, ast.Call) and isinstance(e.func, ast.Name) and e.func.id == "every_list":
                 add("LLen", "*")
                 add(e.args[0].value, "*")
+            elif isinstance(e, ast.IfExp) and isinstance(e.orelse, ast.Constant) and e.orelse.value is None:
+                # conditional frame:  <target> if <cond> else None
+                c = self.eval_spec_bool(e.test, ctx)
+                inner = e.body
+                if isinstance(inner, ast.Call) and isinstance(inner.func, ast.Name) and inner.func.id == "items":
+                    l = self.eval(inner.args[0], ctx)
+                    rt = z3.If(c, l.t, NOWHERE)
+                    add("LLen", rt)
+                    add(elem_array_key(l.ty[1]), rt)
+                else:
+                    o = self.eval(inner.value, ctx)
+                    fkey, fty = self.world.field_key(o.ty[1], inner.attr, self.cur_class())
+                    rt = z3.If(c, o.t, NOWHERE)
+                    add(fkey, rt)
+                    if isinstance(fty, tuple) and fty[0] == "opt":
+                        add(fkey + "?", rt)
             elif isinstance(e, ast.Attribute):
                 o = self.eval(e.value, ctx)
                 fkey, fty = self.world.field_key(o.ty[1], e.attr, self.cur_class())
@@ -723,13 +793,23 @@ class FunctionVerifier:
             self.assume(z3.Or(*[t == m for m in ms]))
         if k in ("ref", "list"):
             nullable = self.world.field_nullable(fkey)
-            facts = [birth(t) < heap.now]
+            # the entry heap is closed: what it references existed at entry
+            facts = [birth(t) < (self.pre_heap.now if self.is_entry_term(t) else heap.now)]
             if k == "ref" and fty[1] in self.prog.classes:
                 facts.append(self.subclass_cond(t, fty[1]))
             if k == "list":
                 facts.append(z3.Select(heap.get("LLen", IntS), t) >= 0)
                 if lkind_of(fty[1]) is not None:
                     facts.append(lkind(t) == lkind_of(fty[1]))
+                    self._lkind_tag[t.get_id()] = lkind_of(fty[1])
+                    self._id_keep.append(t)
+                if fkey[2:] in self.world.owned:
+                    # ownership discipline (assumption, listed in evidence): the list held in this field is not
+                    # the list held in any other owned field
+                    facts.append(lowner(t) == self.world.owned.index(fkey[2:]) + 1)
+                    self.world.assumed_ownership.add(fkey[2:])
+                    self._owner_tag[t.get_id()] = self.world.owned.index(fkey[2:]) + 1
+                    self._id_keep.append(t)
             else:
                 facts.append(lkind(t) == 0)
             f = conj(facts)
@@ -765,7 +845,7 @@ class FunctionVerifier:
         k = v.kind()
         if assume_wf and k in ("ref", "list"):
             n = self.list_len(l, heap)
-            facts = [birth(t) < heap.now]
+            facts = [birth(t) < (self.pre_heap.now if self.is_entry_term(t) else heap.now)]
             nullable_elem = isinstance(ety, tuple) and len(ety) > 2
             if k == "ref" and ety[1] in self.prog.classes:
                 facts.append(self.subclass_cond(t, ety[1]))
@@ -789,6 +869,7 @@ class FunctionVerifier:
         l = mk_list(r, ety)
         if lkind_of(ety) is not None:
             self.assume(lkind(r) == lkind_of(ety))
+            self._lkind_tag[r.get_id()] = lkind_of(ety)
         self.assume(z3.Select(self.heap.get("LLen", IntS), r) == n)
         if arr is not None and ety != "?":
             key = elem_array_key(ety)
@@ -844,11 +925,46 @@ class FunctionVerifier:
         fa, fb = ia in self._fresh_ids, ib in self._fresh_ids
         if fa and fb:
             return True
-        if fa and ib in self._entry_ids:
+        if fa and (ib in self._entry_ids or self.is_entry_term(b)):
             return True
-        if fb and ia in self._entry_ids:
+        if fb and (ia in self._entry_ids or self.is_entry_term(a)):
             return True
+        ta, tb = self._owner_tag.get(ia), self._owner_tag.get(ib)
+        if ta is not None and tb is not None and ta != tb:
+            return True          # lists held in different owned fields (ownership discipline)
+        ka, kb = self._lkind_tag.get(ia), self._lkind_tag.get(ib)
+        if ka is not None and kb is not None and ka != kb:
+            return True          # a list of str is not a list of objects is not an object
         return False
+
+    def is_entry_term(self, t):
+        """t is built only from the entry heap and the parameters: it denotes an object that existed at entry"""
+        i = t.get_id()
+        r = self._entry_term_cache.get(i)
+        if r is not None:
+            return r
+        ok = True
+        todo = [t]
+        seen = set()
+        while todo and ok:
+            x = todo.pop()
+            if x.get_id() in seen:
+                continue
+            seen.add(x.get_id())
+            if z3.is_app(x):
+                if x.num_args() == 0 and x.decl().kind() == z3.Z3_OP_UNINTERPRETED:
+                    n = x.decl().name()
+                    if not (n.endswith("@0") or n.startswith("p_") and n.endswith("!0") or n == "null" or
+                            n.startswith("classattr:") or n.startswith("default:")):
+                        ok = False
+                todo.extend(x.children())
+            else:
+                ok = False
+        if t.sort() != Ref:
+            ok = False
+        self._entry_term_cache[i] = ok
+        self._id_keep.append(t)
+        return ok
 
     def sel(self, arr, r):
         """Select(arr, r) with stores at provably different references peeled off"""
@@ -866,7 +982,7 @@ class FunctionVerifier:
         """Python index semantics on a sequence of length n; IndexError when out of range."""
         i = z3.simplify(i)
         ok = (i < n) if self.is_nonneg(i) else z3.And(i >= -n, i < n)
-        if not self.choose(ok):
+        if not self.choose(ok, exc_branch=False):
             raise RaiseSig("IndexError", self.where(node))
         return self.norm_index(i, n)
 
@@ -1007,8 +1123,12 @@ class FunctionVerifier:
 
     def assume_inv(self, inv, k, st, mode):
         ctx = self.inv_ctx(k, mode)
-        for label, clause in inv.clauses():
-            self.assume(self.eval_spec_bool(clause, ctx))
+        self.soft_mode = True
+        try:
+            for label, clause in inv.clauses():
+                self.assume(self.eval_spec_bool(clause, ctx))
+        finally:
+            self.soft_mode = False
 
     def havoc_heap(self, modifies, env, heap, owner=None):
         mod = self.eval_modifies(modifies, Ctx(env, heap, spec=True), owner)
@@ -1185,7 +1305,7 @@ class FunctionVerifier:
                     raise RaiseSig("TypeError", self.where(node))
                 ot = mk_str(o.t)
                 return mk_str(z3.Concat(l.t, ot.t) if o is r else z3.Concat(ot.t, r.t))
-            if lk == "list" and rk == "list":
+            if lk in ("list", "listval") and rk in ("list", "listval"):
                 return self.list_concat(l, r, ctx)
         if isinstance(op, ast.Sub) and lk == "int" and rk == "int":
             return mk_int(l.t - r.t)
@@ -1194,14 +1314,20 @@ class FunctionVerifier:
         raise VCError(f"binary op {type(op).__name__} on {l.ty},{r.ty} not supported at {self.where(node)}")
 
     def list_concat(self, l, r, ctx):
-        heap = ctx.heap
-        n1, n2 = self.list_len(l, heap), self.list_len(r, heap)
-        a1, a2 = self.list_arr(l, heap), self.list_arr(r, heap)
-        i = z3.Int("i!cc")
-        arr = z3.Lambda([i], z3.If(i < n1, z3.Select(a1, i), z3.Select(a2, i - n1)))
+        n1, a1, e1 = self.as_listval(l, ctx)
+        n2, a2, e2 = self.as_listval(r, ctx)
+        ety = e1 if e1 != "?" else e2
+        if a1 is None:
+            arr, n = a2, n2
+        elif a2 is None:
+            arr, n = a1, n1
+        else:
+            i = z3.Int("i!cc")
+            arr = z3.Lambda([i], z3.simplify(z3.If(i < n1, z3.Select(a1, i), z3.Select(a2, i - n1))))
+            n = z3.simplify(n1 + n2)
         if ctx.spec:
-            return V(("listval", l.ty[1]), (n1 + n2, arr))
-        return self.new_list(l.ty[1], n1 + n2, arr)
+            return V(("listval", ety), (n, arr))
+        return self.new_list(ety, n, arr)
 
     def ev_IfExp(self, e, ctx):
         c = self.truth(self.eval(e.test, ctx))
@@ -1230,8 +1356,18 @@ class FunctionVerifier:
             a2 = self.coerce(a, ("opt", inner))
             b2 = self.coerce(b, ("opt", inner))
             return mk_opt(z3.If(c, a2.aux, b2.aux), z3.If(c, a2.t, b2.t), inner)
-        if a.kind() == "listval":
-            return V(a.ty, (z3.If(c, a.t[0], b.t[0]), z3.If(c, a.t[1], b.t[1])))
+        if a.kind() == "listval" or b.kind() == "listval":
+            ctx0 = Ctx(self.env, self.heap, spec=True)
+            n1, a1, e1 = self.as_listval(a, ctx0)
+            n2, a2, e2 = self.as_listval(b, ctx0)
+            ety = e1 if e1 != "?" else e2
+            if a1 is None:
+                a1 = a2
+            if a2 is None:
+                a2 = a1
+            if a1 is None:
+                return V(("listval", ety), (z3.IntVal(0), None))
+            return V(("listval", ety), (z3.If(c, n1, n2), z3.If(c, a1, a2)))
         if a.kind() != b.kind():
             raise VCError(f"conditional with different types {a.ty} / {b.ty}")
         return V(a.ty, z3.If(c, a.t, b.t))
@@ -1413,7 +1549,7 @@ class FunctionVerifier:
                 a = self.norm_index_clamp(lo, n) if lo is not None else z3.IntVal(0)
                 b = self.norm_index_clamp(hi, n) if hi is not None else n
                 i = z3.Int("i!sl")
-                newarr = arr if lo is None else z3.Lambda([i], z3.Select(arr, i + a))
+                newarr = arr if lo is None else z3.Lambda([i], z3.simplify(z3.Select(arr, i + a)))
                 newlen = z3.If(b > a, b - a, z3.IntVal(0))
                 if ctx.spec:
                     return V(("listval", ety), (z3.simplify(newlen), newarr))
@@ -1462,10 +1598,7 @@ class FunctionVerifier:
             n, arr, ety = self.as_listval(t, ctx)
             return V(("listval", ety), (n, arr))
         if not vals:
-            r = self.alloc("list")
-            l = mk_list(r, "?")
-            self.set_list_len(l, z3.IntVal(0))
-            return l
+            return self.new_list("?", z3.IntVal(0), None)
         ety = vals[0].ty
         if isinstance(ety, tuple) and ety[0] == "ref":
             ety = ("ref", None) if len({v.ty for v in vals}) > 1 else ety
@@ -1531,8 +1664,12 @@ class FunctionVerifier:
                 self.assume(typeof(res.t) == self.world.class_id(res.ty[1]))
             self.assume_result_wf(res)
         post = Ctx(cenv, self.heap, spec=True, old=old_ctx, result=res)
-        for label, clause in c.ensures_clauses():
-            self.assume(self.eval_spec_bool(clause, post))
+        self.soft_mode = True
+        try:
+            for label, clause in c.ensures_clauses():
+                self.assume(self.eval_spec_bool(clause, post))
+        finally:
+            self.soft_mode = False
         return res
 
     def assume_result_wf(self, res):
